@@ -215,3 +215,29 @@ Example C15_terminal_example :
   o_obs out = [[normalize_s 3 0 1 1]; [normalize_s (1 # 2) 0 1 1]] /\
   o_term out = [Some [normalize_s 5 0 1 1]; None] /\ (normalize_s 5 0 1 1 == 1)%Q /\ (normalize_s (1 # 2) 0 1 1 == 1 # 2)%Q.
 Proof. cbn. repeat split; reflexivity. Qed.
+
+(* ---- review items ---- *)
+(* per key, with norm_obs ON: channels of keys that are not normalised pass through; the others get the clipped
+   standardised value computed with their own statistics and hint *)
+Theorem C15_per_key_passthrough : forall p chans ms ss x ch,
+  length ms = length chans -> length ss = length chans -> length x = length chans ->
+  nth ch chans true = false -> nth ch (norm_vec p true chans ms ss x) 0 = nth ch x 0.
+Proof. exact per_key_passthrough. Qed.
+Print Assumptions C15_per_key_passthrough.
+
+Theorem C15_per_key_normalised : forall p chans ms ss x ch,
+  length ms = length chans -> length ss = length chans -> length x = length chans -> (ch < length chans)%nat ->
+  nth ch chans false = true ->
+  nth ch (norm_vec p true chans ms ss x) 0
+  = normalize_s (nth ch x 0) (r_mean (nth ch ms (rms_init eps_default))) (nth ch ss 0) (p_clip_obs p).
+Proof. exact per_key_normalised. Qed.
+Print Assumptions C15_per_key_normalised.
+
+(* the run that the correspondence executes (update_red, Qred) has the same return accumulators, up to == *)
+Theorem C15_returns_closed_form_executable : forall p h st i acc,
+  v_training st = true -> Forall (fun o => wf_op (length (v_returns st)) o /\ forall t no nr, o <> OSet t no nr) h ->
+  (i < length (v_returns st))%nat ->
+  nth i (v_returns st) 0 == disc (p_gamma p) acc ->
+  nth i (v_returns (vn_run update_red Qred p st h)) 0 == disc (p_gamma p) (rewards_since i acc h).
+Proof. exact vn_returns_closed_form_executable. Qed.
+Print Assumptions C15_returns_closed_form_executable.
